@@ -96,6 +96,16 @@ pub fn run(out: &mut Out, thorough: bool) {
                     // the E carried inside a proof of square must equal E_{a,b}_1: editing it alone must be refused too
                     out.check(&format!("{}/edit{}", tag, path), "verify", vec![format!("{} += 1", path)], false, &["edit"], || q.verify::<Sha256>(g, h, n, a, b));
                 }
+                // challenges are compared in full: an edit by a multiple of 2^t (t = 128, half the hash length) or of 2^256 must be refused too
+                for path in paths.iter().filter(|p| p.ends_with("/C") || p.ends_with("/challenge") || thorough) {
+                    for (nm, k) in [("2^128", 128u32), ("2^256", 256u32)] {
+                        let mut t = j.clone();
+                        let y = get_int(at(&t, path)) + pow2(k);
+                        set(&mut t, path, int_json(&y));
+                        let q: Boudot2000RangeProof = from_jv(&t);
+                        out.check(&format!("{}/edit{}/+{}", tag, path, nm), "verify", vec![format!("{} += {}", path, nm)], false, &["edit"], || q.verify::<Sha256>(g, h, n, a, b));
+                    }
+                }
                 donor = Some(p);
             }
         }
